@@ -186,6 +186,7 @@ func runC04(c *Ctx) {
 	c.c04FailuresAreNotOvertaken(fns)
 	c.c04GivenPathMatchedWhole(fns)
 	c.c04BackendsOnlyRemove()
+	c.filterLeavesOutOnlyWhatMatches("N21") // the obligation C08/E15: what a listing holds is decided by the patterns alone
 	// N20: "entries matching an exclusion pattern survive": the expressions the removal protects with are those of *this* call's
 	// patterns. The compiled list depends on the arguments of NewExclusionRegexList only — no package-level state is read or
 	// written on the way (a cache of compiled lists keyed by less than the whole list hands one call the expressions of
